@@ -3,6 +3,7 @@ import importlib
 
 _ENGINES = {
     "C04": ("sims.histsim", "HistSim"),
+    "C07": ("sims.modesim", "ModeSim"),
 }
 
 
